@@ -66,6 +66,24 @@ def is_conc_real(v):
     return type(v) is Fraction or type(v) is int
 
 
+POS = set()      # ids of z3 terms (denominators) proved positive under the path on which they were created
+
+
+def is_pos(d):
+    if type(d) is Fraction or type(d) is int:
+        return d > 0
+    return d.get_id() in POS
+
+
+def mark_pos(d):
+    if not (type(d) is Fraction or type(d) is int):
+        POS.add(d.get_id())
+        _KEEP.append(d)
+
+
+_KEEP = []       # keeps marked terms alive so that ids are not reused
+
+
 def _mul(a, b):
     if is_conc_real(a):
         if a == 1:
@@ -95,7 +113,10 @@ def _add(a, b):
         if b == 0:
             return a
         return a + _rv(b)
-    return a + b
+    r = z3.simplify(a + b)
+    if z3.is_rational_value(r):
+        return r.as_fraction()
+    return r
 
 
 def _neg(a):
@@ -142,7 +163,10 @@ def radd(a, b):
     bn, bd = rparts(b)
     if _same(ad, bd):
         return mk_real(_add(an, bn), ad)
-    return mk_real(_add(_mul(an, bd), _mul(bn, ad)), _mul(ad, bd))
+    d = _mul(ad, bd)
+    if is_pos(ad) and is_pos(bd):
+        mark_pos(d)
+    return mk_real(_add(_mul(an, bd), _mul(bn, ad)), d)
 
 
 def rneg(a):
@@ -157,7 +181,10 @@ def rsub(a, b):
 def rmul(a, b):
     an, ad = rparts(a)
     bn, bd = rparts(b)
-    return mk_real(_mul(an, bn), _mul(ad, bd))
+    d = _mul(ad, bd)
+    if is_pos(ad) and is_pos(bd):
+        mark_pos(d)
+    return mk_real(_mul(an, bn), d)
 
 
 def rcmp(pred, a, b):
@@ -173,7 +200,10 @@ def rcmp(pred, a, b):
         r = _rv(_mul(bn, ad))
         return (l == r) if pred == 'eq' else (l != r)
     # a/ad ? b/bd   <=>   an*ad*bd^2 ? bn*bd*ad^2   (denominators non-zero)
-    if is_conc_real(ad) and is_conc_real(bd):
+    if is_pos(ad) and is_pos(bd):
+        l = _rv(_mul(an, bd))
+        r = _rv(_mul(bn, ad))
+    elif is_conc_real(ad) and is_conc_real(bd):
         # scale by positive constants only
         s = 1 if (ad > 0) == (bd > 0) else -1
         l = _rv(_mul(_mul(an, bd), s))
@@ -273,6 +303,9 @@ class State:
         s.unsure = self.unsure
         s.assumed = list(self.assumed)
         s.depth = self.depth
+        s.exp_args = getattr(self, 'exp_args', ())
+        s.exp_zero = getattr(self, 'exp_zero', 0)
+        s.exp_conc = getattr(self, 'exp_conc', ())
         return s
 
     # --- memory
@@ -341,6 +374,7 @@ class Engine:
         self.trace_calls = self.opts.get('trace_calls', False)
         self.stop_on_violation = self.opts.get('stop_on_violation', False)
         self.known_excl = self.opts.get('exclude', [])
+        self.resolve_selects = bool(self.opts.get('resolve_selects', False))
         import collections
         self.tail = collections.deque(maxlen=int(self.opts['tail'])) if self.opts.get('tail') else None
         from . import irs_builtins
@@ -844,6 +878,8 @@ class Engine:
         r = s.check()
         self.res.queries += 1
         self.res.solver_time += time.time() - t0
+        if time.time() - t0 > 1.0 and os.environ.get('VERIF_SLOWLOG'):
+            print('SLOWQ %.1fs %s n=%d last=%s' % (time.time() - t0, r, len(cons), str(cons[-1])[:300].replace('\n', ' ')), flush=True)
         if r == z3.sat:
             return 'sat', s.model()
         if r == z3.unsat:
@@ -1668,6 +1704,33 @@ def h_select(E, st, fr, ins):
     if a is b:
         fr.regs[ins.res] = a
         return None
+    if E.resolve_selects and ty.k == 'double' and not (cb is True or cb is False):
+        # is the condition decided by the path condition?  (keeps ite terms out of the arguments of exp)
+        r1, m1 = E.feasible(st, cb)
+        if r1 == 'unsat':
+            fr.regs[ins.res] = b
+            return None
+        r2, m2 = E.feasible(st, z3.Not(cb))
+        if r2 == 'unsat':
+            fr.regs[ins.res] = a
+            return None
+        # undecided: do both arms agree whenever the other one would be taken (ties of a min/max)?
+        try:
+            ne = rcmp('ne', a, b)
+            if ne is False:
+                fr.regs[ins.res] = a
+                return None
+            if ne is not True:
+                r3, _m = E.solve(st.path + [cb, ne], timeout=5000)
+                if r3 == 'unsat':            # whenever a is selected it equals b
+                    fr.regs[ins.res] = b
+                    return None
+                r4, _m = E.solve(st.path + [z3.Not(cb), ne], timeout=5000)
+                if r4 == 'unsat':
+                    fr.regs[ins.res] = a
+                    return None
+        except EncodingLimit:
+            pass
     if ty.k == 'ptr':
         # pointers stay concrete: fork instead of building an ite term
         return E.fork_branch(st, fr, ins, cb)
@@ -1994,7 +2057,18 @@ def _rdiv(self, st, a, b, ins=None):
         st.unsure = True
     else:
         st.path.append(nz)
-    return mk_real(_mul(an, bd), _mul(ad, bn))
+    num, den = _mul(an, bd), _mul(ad, bn)
+    if not is_conc_real(den) and is_pos(ad):
+        # sign of the divisor under the path: lets comparisons cross-multiply without squaring denominators
+        rp, _m = self.solve(st.path + [_rv(bn) <= 0], timeout=min(self.qtimeout, 5000))
+        if rp == 'unsat':
+            mark_pos(den)
+        else:
+            rn, _m = self.solve(st.path + [_rv(bn) >= 0], timeout=min(self.qtimeout, 5000))
+            if rn == 'unsat':
+                num, den = _neg(num), _neg(den)
+                mark_pos(den)
+    return mk_real(num, den)
 
 
 def _find_builtin(self, name):
